@@ -271,7 +271,7 @@ def scenarios(which='main'):
         ('select unnest([a1]), unnest([a2])', T0, None, None),          # parsing error raised inside the main loop
         ("select " + ", ".join("like(a1, 'k%s%%')" % c for c in 'abcdefghij') + ", like(a2, '%_')", [['ka', 'x'], ['kj', ''], ['k', 'y']], None, None),     # ten distinct LIKE patterns
         ("select like(a1, 'ka%'), like(a1, 'kj%'), like(a2, '%_'), like(a1, 'k_')", [['kax', 'x'], ['kj', ''], ['ka', 'y']], None, None),
-        ('select distinct count a.name, a2 + "!"', [['k', '1'], ['k', '1'], ['m', '2']], None, ['name', 'val'], 'defaults'),
+        ('select distinct count a.name, a2 + "!"', [['k', '1'], ['k', '1'], ['m', '2']], None, ['name', 'val']),       # full call style: the output header is observed (a shared leading-names list shows here)
         ('select a1, int(a2) order by a1 desc', [['k', '1'], ['m', 'bad'], ['k', '3']], None, None),      # fails at record 2 with rows already buffered for sorting
         ('select a2, a1 order by a2', [['k', '7'], ['m', '5']], None, None),
         ('select a["val"], NR', [['k', '1'], ['m', '2']], None, ['name', 'val'], 'kw'),
